@@ -202,6 +202,32 @@ def int_only_schema(a1, a2):
 ''' + TAIL
 
 
+def three_groups_schema(a1, a2, a3):
+    return HEAD + f'''
+<xs:attributeGroup name="G1"><xs:anyAttribute {a1} processContents="skip"/></xs:attributeGroup>
+<xs:attributeGroup name="G2"><xs:anyAttribute {a2} processContents="skip"/></xs:attributeGroup>
+<xs:attributeGroup name="G3"><xs:anyAttribute {a3} processContents="skip"/></xs:attributeGroup>
+<xs:complexType name="I"><xs:attributeGroup ref="t:G1"/><xs:attributeGroup ref="t:G2"/><xs:attributeGroup ref="t:G3"/></xs:complexType>
+<xs:element name="i" type="t:I"/>
+<xs:complexType name="O3"><xs:attributeGroup ref="t:G3"/></xs:complexType>
+<xs:element name="o3" type="t:O3"/>
+''' + TAIL
+
+
+def shared_group_schema(a1, a2):
+    """G1 is used alone by `o`, with an own wildcard by `n` (intersection) and by an extension of B (union)."""
+    return HEAD + f'''
+<xs:attributeGroup name="G1"><xs:anyAttribute {a1} processContents="skip"/></xs:attributeGroup>
+<xs:complexType name="B"><xs:anyAttribute {a2} processContents="skip"/></xs:complexType>
+<xs:complexType name="E"><xs:complexContent><xs:extension base="t:B"><xs:attributeGroup ref="t:G1"/></xs:extension></xs:complexContent></xs:complexType>
+<xs:complexType name="N"><xs:attributeGroup ref="t:G1"/><xs:anyAttribute {a2} processContents="skip"/></xs:complexType>
+<xs:complexType name="O"><xs:attributeGroup ref="t:G1"/></xs:complexType>
+<xs:element name="e" type="t:E"/>
+<xs:element name="n" type="t:N"/>
+<xs:element name="o" type="t:O"/>
+''' + TAIL
+
+
 def res_attr_schema(a1, a2):
     return HEAD + f'''
 <xs:complexType name="B"><xs:anyAttribute {a1} processContents="skip"/></xs:complexType>
@@ -319,6 +345,40 @@ def run_instance_pair(res, xmlschema, cls, version, cons, i, j, XMLSchemaModelEr
     for op, s, tag, ref in todo:
         cs = case(op)
         compare(op, admitted(s, attr_instance, tag), ref, cs)
+
+    # three attribute groups: the intersection is taken over all of them; a third group used elsewhere is unchanged
+    for k in sorted({(i * 7 + j * 3) % len(cons), (i + j + 1) % len(cons)}):
+        c3 = cons[k]
+        a3, d3 = W.render_attrs(c3), W.denote(c3)
+        s3, e3 = build(cls, three_groups_schema(a1, a2, a3))
+        cs = dict(case('attrgroup-intersection-3'), k=k)
+        if s3 is None:
+            res.count('instance:attrgroup-intersection-3:refused_' + ('inexpressible' if version == '1.0' and not (
+                W.expressible_10(d1 & d2) and W.expressible_10(d1 & d2 & d3)) else 'expressible'))
+            continue
+        lib = admitted(s3, attr_instance, 'i')
+        if lib != d1 & d2 & d3:
+            res.violation(mech('attrgroup-intersection-3', 'instance', version, c1, c2, lib, d1 & d2 & d3), cs,
+                          f'{show(c1)} & {show(c2)} & {show(c3)}: validation admits {sorted(lib)} reference {sorted(d1 & d2 & d3)}')
+        elif admitted(s3, attr_instance, 'o3') != d3:
+            res.violation(f'shared-group-wildcard-changed/{version}/third-group', cs,
+                          f'{show(c3)} used by another type after a three-way intersection admits {sorted(admitted(s3, attr_instance, "o3"))}')
+        else:
+            res.count('instance:attrgroup-intersection-3:agree')
+    # one group shared by three types: the group's own wildcard must stay what it declares
+    sg, eg = build(cls, shared_group_schema(a1, a2))
+    cs = case('shared-group')
+    if sg is None:
+        res.count('instance:shared-group:refused')
+    else:
+        for tag, ref, what in (('e', d1 | d2, 'ext-via-group-union'), ('n', d1 & d2, 'group+own-intersection'), ('o', d1, 'group-alone')):
+            lib = admitted(sg, attr_instance, tag)
+            if lib != ref:
+                res.violation(f'shared-group-wildcard-changed/{version}/{what}' if tag == 'o' else
+                              mech(what, 'instance', version, c1, c2, lib, ref), cs,
+                              f'{what}: group {show(c1)}, other {show(c2)}: admits {sorted(lib)} reference {sorted(ref)}')
+            else:
+                res.count(f'instance:shared-group:{what}:agree')
 
     # restriction, attribute and element wildcards: c2 restricting c1
     for op, text, maker in (('attr-restriction', res_attr_schema(a1, a2), attr_instance),
